@@ -100,12 +100,15 @@ def ws2dwcvp(y, nodata, p, llas, robust, out, lopt):
                 # residuals of valid cells only: masked cells hold placeholders
                 r_sel = r_arr[(r_weights != 0) & (w != 0)]
                 mad = np.median(np.abs(r_sel - np.median(r_sel)))
-                u_arr = r_arr / (1.4826 * mad * np.sqrt(1 - gamma.sum() / n))
+                # a zero MAD (more than half of the residuals equal) carries no
+                # scale information: keep the current weights instead of dividing by it
+                if mad > 0:
+                    u_arr = r_arr / (1.4826 * mad * np.sqrt(1 - gamma.sum() / n))
 
-                r_weights = (1 - (u_arr / 4.685) ** 2) ** 2
-                r_weights[(np.abs(u_arr / 4.685) > 1)] = 0
+                    r_weights = (1 - (u_arr / 4.685) ** 2) ** 2
+                    r_weights[(np.abs(u_arr / 4.685) > 1)] = 0
 
-                r_weights[r_arr > 0] = 1
+                    r_weights[r_arr > 0] = 1
 
             robust_weights = w * r_weights
 
@@ -219,12 +222,15 @@ def _ws2dwcvp(y, w, p, llas, robust):
             # residuals of valid cells only: masked cells hold placeholders
             r_sel = r_arr[(r_weights != 0) & (w != 0)]
             mad = np.median(np.abs(r_sel - np.median(r_sel)))
-            u_arr = r_arr / (1.4826 * mad * np.sqrt(1 - gamma.sum() / n))
+            # a zero MAD (more than half of the residuals equal) carries no
+            # scale information: keep the current weights instead of dividing by it
+            if mad > 0:
+                u_arr = r_arr / (1.4826 * mad * np.sqrt(1 - gamma.sum() / n))
 
-            r_weights = (1 - (u_arr / 4.685) ** 2) ** 2
-            r_weights[(np.abs(u_arr / 4.685) > 1)] = 0
+                r_weights = (1 - (u_arr / 4.685) ** 2) ** 2
+                r_weights[(np.abs(u_arr / 4.685) > 1)] = 0
 
-            r_weights[r_arr > 0] = 1
+                r_weights[r_arr > 0] = 1
 
         robust_weights = w * r_weights
 
